@@ -241,7 +241,7 @@ Proof.
   destruct (fold_left _ (stem_prefixes l) None) as [[p w]|]; reflexivity.
 Qed.
 
-Lemma resolve_fold_In : forall pref L best p w,
+Lemma resolve_fold_In : forall (pref : list (bytes * N)) L best p w,
   fold_left (fun best p => match aget p pref with Some w => Some (p, w) | None => best end) L best
     = Some (p, w) -> best = Some (p, w) \/ In (p, w) pref.
 Proof.
